@@ -25,7 +25,7 @@ TV_NOTE = {
  "C06": " Nf.bodiesEquiv_sound also validates the emitted raw_value / new_with_raw_value bodies against the model's.",
  "C08": " TV.getter_validated (result through T::new_with_raw_value as a symbolic call) / setter_validated (value.raw_value() as a symbolic input) for emitted bodies of custom-typed fields.",
  "C11": " TV.setter_validated: an emitted setter body the normaliser accepts keeps the register below 2^N.",
- "C12": " TV.setter_validated: every step of a history may use any emitted body the normaliser accepts. C12.readback_after_history / Prog.accepted_history_readback: after any legal history the field written last reads back the written value (the run executes exactly that after every random history).",
+ "C12": " TV.setter_validated: every step of a history may use any emitted body the normaliser accepts. C12.readback_after_history / Prog.accepted_history_readback: after any legal history the field written last reads back the written value (the run executes exactly that after every random history). Prog.accepted_history_order_independent: permuted histories of pairwise disjoint writes against an accepted declaration both run and end in the same register, also across profiles.",
  "C13": " TV.setter_validated: the with_ calls of the chain may use any emitted body the normaliser accepts. C13.builder_order_irrelevant: any permutation of the chain's with_ calls (pairwise disjoint, which is what C14 makes the condition for offering a builder) run from the same start value ends in the register build() returns.",
  "C16": " TV.validated_profile_independent / *_validated_oob: a validated emitted body gives the same result with overflow checks on and off and panics exactly on an out-of-range index.",
 }
